@@ -116,7 +116,7 @@ class Run:
         op = self.ops[i]
         self.step_no = i
         k = op['k']
-        shim.reset(i + 1, self.seed_base)
+        shim.reset(op.get('n', i + 1), self.seed_base)   # keyed on the op's serial: inserted/removed ops do not shift later draws
         if k == 'write':
             img = self.write()
             if img is not None:
